@@ -186,6 +186,8 @@ def run_check(prop, tier, seed, only=None, jobs=None, verbose=False):
         sys.path.insert(0, repo)
     modname = f"harness.{prop.lower()}"
     hm = importlib.import_module(modname)
+    if tier == "thorough":
+        os.environ.setdefault("SYMX_CROSSCHECK", "cvc5")      # every obligation is re-decided by cvc5 from the SMT-LIB2 dump
     insts = hm.instances(tier)
     if only:
         insts = [i for i in insts if fnmatch.fnmatch(i.name, only)]
@@ -299,7 +301,7 @@ def finish(prop, hm, tier, seed, insts, results, extra, t0, verbose=False):
                rewrites_applied=loader.REWRITES, stubs=getattr(hm, "STUBS", []),
                bounds=getattr(hm, "BOUNDS", {}).get(tier, getattr(hm, "BOUNDS", {})),
                structure_instances=per_inst, outside_claim=getattr(hm, "OUTSIDE", []),
-               solver="z3 " + __import__("z3").get_version_string(),
+               solver="z3 " + __import__("z3").get_version_string() + ("; obligations re-decided by cvc5 1.4 from the SMT-LIB2 dump (5 s each; disagreement = inconclusive)" if os.environ.get("SYMX_CROSSCHECK") == "cvc5" else ""),
                known_findings=[dict(pattern=p, signatures=v["sigs"]) for p, v in known_hits.items()],
                inconclusive=inconclusive[:40])
     if level == "translation_validation":
